@@ -2,6 +2,9 @@ import RbV.Ref.Smem
 import RbV.Model.FMDExt
 import RbV.Model.FMDRev
 import RbV.Model.FMDSym
+import RbV.Lemmas.SmemsFmd
+import RbV.Lemmas.FmdBridge
+import RbV.Lemmas.FmdInitExt
 /-!
 # C06 — FMD-index: SMEMs on both strands, `all_smems`, bi-interval extension
 
@@ -293,5 +296,232 @@ example : LF.sortedAllB T0 sa0 = true := by decide
 example : FMDModel.backwardExt (LF.lessRef bw0) (LF.occRef bw0) (FMDModel.initIntervalWith (LF.lessRef bw0) 84) 65
     = { lower := 3, lowerRev := 3, size := 2, matchSize := 2 } := by decide
 end model_examples
+
+/-! ## [C] mirror model of Li's sweep: `smems` and `all_smems`
+
+`SmemModel.smems ops pattern i l` / `SmemModel.allSmems ops pattern l` (`RbV/Model/Smems.lean`) follow
+`FMDIndex::smems` / `all_smems` line by line over an abstract interval type with the four operations the code uses.
+`SmemModel.biOps less occ` instantiates them with the bi-interval model of `RbV/Model/FMDExt.lean` (this is what
+the implementation computes; the driver runs it on every `smems` line, tag `smems-model=impl` / `drift-smems`);
+`SmemModel.strOps (cnt T pattern)` is the string-level model: an interval is the substring `pattern[b..e)` it stands
+for, its size the number of occurrences of that substring (`smemsStr`, `allSmemsStr`).
+
+Proof route (`RbV/Lemmas/Smems*.lean`): the nested loops are replaced by a plain recursion (`outer_eq_spec`: in round
+`k` only the first, longest candidate can be reported — the `curr.is_empty()`, `k < j`, `last_size` bookkeeping);
+the string-level sweep is correct given two laws of occurrence counts (`smems_abs_correct`: forward phase records the
+right-maximal extensions of `pattern[i..i+1)` at the count drops, `Inv` is the invariant of the backward phase);
+occurrence counts satisfy the laws (`countLaws_cnt`); any operations that implement the string-level ones run in
+lock-step with them (`sim_smems`), and the FMD bi-interval operations do (`simHyp_fmd`, from `chain_correct`, plus
+"extending an empty bi-interval with non-zero lower bounds gives an empty one"). -/
+
+/-- **the string-level model of `smems(pattern, i, l)` is correct** (`l ≥ 1`, `i < |pattern|`): it returns, as a set,
+exactly the supermaximal exact matches covering `i` of length ≥ `l` — everything returned is such a match (cannot
+be extended to the left or to the right), and every such match is returned -/
+theorem smems_model_correct (T pat : List Nat) (i l : Nat) (hi : i < pat.length) (hl : 1 ≤ l) (b len : Nat) :
+    (b, len) ∈ SmemModel.smemsStr T pat i l ↔ (Smem T pat b len ∧ b ≤ i ∧ i < b + len ∧ l ≤ len) := by
+  rw [SmemModel.smemsStr_correct T pat i l hi hl, mem_smemsRef]
+
+/-- … i.e. the same set as the brute-force reference `smemsRef` the driver's oracle uses -/
+theorem smems_model_eq_ref (T pat : List Nat) (i l : Nat) (hi : i < pat.length) (hl : 1 ≤ l) :
+    sameSetG (SmemModel.smemsStr T pat i l) (smemsRef T pat i l) = true := by
+  rw [sameSetG_iff]
+  rintro ⟨b, len⟩
+  exact SmemModel.smemsStr_correct T pat i l hi hl b len
+
+/-- **the string-level model of `all_smems(pattern, l)` is correct** (`l ≥ 1`): every supermaximal exact match of
+length ≥ `l` appears at least once, nothing else appears (the positions visited by the `while` loop cover every match
+because matches are not nested) -/
+theorem all_smems_model_correct (T pat : List Nat) (l : Nat) (hl : 1 ≤ l) (b len : Nat) :
+    (b, len) ∈ SmemModel.allSmemsStr T pat l ↔ (Smem T pat b len ∧ l ≤ len) := by
+  rw [SmemModel.allSmemsStr_correct T pat l hl, mem_allSmemsMin]
+
+/-- **bi-interval model = string-level model**: on every FMD index (sequences and pattern over `ACGTNacgtn`, array
+passing `LF.sortedAllB`) the sweep over the bi-interval operations reports the same (position, length) pairs as the
+string-level sweep, in the same order -/
+theorem smems_bi_model_eq_string (seqs : List (List Nat)) (sa pat : List Nat)
+    (hne : seqs ≠ []) (hseqs : ∀ s ∈ seqs, ∀ c ∈ s, FMDModel.isDna c = true)
+    (hchk : LF.sortedAllB (fmdText seqs) sa = true) (hpat : ∀ c ∈ pat, FMDModel.isDna c = true)
+    (i l : Nat) (hi : i < pat.length) :
+    (SmemModel.smems (SmemModel.biOps (LF.lessRef (LF.bwtOf (fmdText seqs) sa)) (LF.occRef (LF.bwtOf (fmdText seqs) sa)))
+      pat i l).map (fun h => (h.pos, h.len)) = SmemModel.smemsStr (fmdText seqs) pat i l :=
+  SmemModel.smems_bi_eq_str seqs sa pat hne hseqs hchk hpat i l hi
+
+/-- **the mirror model of `FMDIndex::smems` satisfies the property**: run on `less`/`occ` of the BWT of an FMD
+index, for `i < |pattern|` and `l ≥ 1`, its output (as the harness prints it: position, length, `forward()` and
+`revcomp()` intervals) is, as a set, exactly the supermaximal exact matches covering `i` of length ≥ `l`, and both
+intervals of every reported match map to exactly the occurrences of the match / of its reverse complement -/
+theorem smems_bi_model_correct (seqs : List (List Nat)) (sa pat : List Nat)
+    (hne : seqs ≠ []) (hseqs : ∀ s ∈ seqs, ∀ c ∈ s, FMDModel.isDna c = true)
+    (hchk : LF.sortedAllB (fmdText seqs) sa = true) (hpat : ∀ c ∈ pat, FMDModel.isDna c = true)
+    (i l : Nat) (hi : i < pat.length) (hl : 1 ≤ l) :
+    SmemsProp (fmdText seqs) sa pat i l
+      ((SmemModel.smems (SmemModel.biOps (LF.lessRef (LF.bwtOf (fmdText seqs) sa))
+        (LF.occRef (LF.bwtOf (fmdText seqs) sa))) pat i l).map SmemModel.hitObs) :=
+  SmemModel.smems_bi_prop seqs sa pat hne hseqs hchk hpat i l hi hl
+
+/-- **the mirror model of `FMDIndex::all_smems` satisfies the property** -/
+theorem all_smems_bi_model_correct (seqs : List (List Nat)) (sa pat : List Nat)
+    (hne : seqs ≠ []) (hseqs : ∀ s ∈ seqs, ∀ c ∈ s, FMDModel.isDna c = true)
+    (hchk : LF.sortedAllB (fmdText seqs) sa = true) (hpat : ∀ c ∈ pat, FMDModel.isDna c = true)
+    (l : Nat) (hl : 1 ≤ l) :
+    AllSmemsProp (fmdText seqs) sa pat l
+      ((SmemModel.allSmems (SmemModel.biOps (LF.lessRef (LF.bwtOf (fmdText seqs) sa))
+        (LF.occRef (LF.bwtOf (fmdText seqs) sa))) pat l).map SmemModel.hitObs) :=
+  SmemModel.allSmems_bi_prop seqs sa pat hne hseqs hchk hpat l hl
+
+/-- … hence the oracle accepts the model's output: on every FMD index the checker and the mirror model agree -/
+theorem smems_model_accepted (seqs : List (List Nat)) (sa pat : List Nat)
+    (hne : seqs ≠ []) (hseqs : ∀ s ∈ seqs, ∀ c ∈ s, FMDModel.isDna c = true)
+    (hchk : LF.sortedAllB (fmdText seqs) sa = true) (hpat : ∀ c ∈ pat, FMDModel.isDna c = true)
+    (i l : Nat) (hi : i < pat.length) (hl : 1 ≤ l) :
+    checkSmems (fmdText seqs) sa pat i l
+      ((SmemModel.smems (SmemModel.biOps (LF.lessRef (LF.bwtOf (fmdText seqs) sa))
+        (LF.occRef (LF.bwtOf (fmdText seqs) sa))) pat i l).map SmemModel.hitObs) = true :=
+  (checkSmems_iff _ _ _ _ _ _).mpr (smems_bi_model_correct seqs sa pat hne hseqs hchk hpat i l hi hl)
+
+/-! ### no sortedness hypothesis left: arrays accepted by C03's checker
+
+`checkSA t sa = true ↔ IsSA t sa` (`RbV.Thm.C03.checkSA_iff`).  In an FMD text the sentinel is the last and the
+smallest symbol, so every accepted array passes `LF.sortedAllB` (`RbV/Lemmas/SortedBridge.lean`,
+`RbV/Lemmas/FmdBridge.lean`) and all theorems above apply. -/
+
+/-- every suffix array C03's checker accepts for an FMD text satisfies the sortedness hypothesis `LF.sortedAllB` of
+`backward_ext_correct`, `forward_ext_correct`, `init_interval_with_correct`, `chain_correct` and the sweep theorems -/
+theorem sortedAllB_of_checkSA (seqs : List (List Nat)) (sa : List Nat) (hne : seqs ≠ [])
+    (hseqs : ∀ s ∈ seqs, ∀ c ∈ s, FMDModel.isDna c = true) (hc : checkSA (fmdText seqs) sa = true) :
+    LF.sortedAllB (fmdText seqs) sa = true :=
+  SmemModel.sortedAllB_of_checkSA_fmd seqs sa hne hseqs hc
+
+/-- `backward_ext` on every array accepted by C03's checker -/
+theorem backward_ext_correct_of_checkSA (seqs : List (List Nat)) (sa P : List Nat) (iv : FMDModel.Bi) (a : Nat)
+    (hne : seqs ≠ []) (hseqs : ∀ s ∈ seqs, ∀ c ∈ s, FMDModel.isDna c = true)
+    (hc : checkSA (fmdText seqs) sa = true)
+    (hP : P ≠ []) (hPd : ∀ q ∈ P, FMDModel.isDna q = true) (ha : FMDModel.isDna a = true)
+    (hbi : FMDSym.BiOf (fmdText seqs) sa P iv) (hpos : 0 < iv.size) :
+    FMDSym.BiOf (fmdText seqs) sa (a :: P)
+      (FMDModel.backwardExt (LF.lessRef (LF.bwtOf (fmdText seqs) sa)) (LF.occRef (LF.bwtOf (fmdText seqs) sa)) iv a) :=
+  backward_ext_correct seqs sa P iv a hne hseqs (sortedAllB_of_checkSA seqs sa hne hseqs hc) hP hPd ha hbi hpos
+
+/-- `forward_ext` on every array accepted by C03's checker -/
+theorem forward_ext_correct_of_checkSA (seqs : List (List Nat)) (sa P : List Nat) (iv : FMDModel.Bi) (a : Nat)
+    (hne : seqs ≠ []) (hseqs : ∀ s ∈ seqs, ∀ c ∈ s, FMDModel.isDna c = true)
+    (hc : checkSA (fmdText seqs) sa = true)
+    (hP : P ≠ []) (hPd : ∀ q ∈ P, FMDModel.isDna q = true) (ha : FMDModel.isDna a = true)
+    (hbi : FMDSym.BiOf (fmdText seqs) sa P iv) (hpos : 0 < iv.size) :
+    FMDSym.BiOf (fmdText seqs) sa (P ++ [a])
+      (FMDModel.forwardExt (LF.lessRef (LF.bwtOf (fmdText seqs) sa)) (LF.occRef (LF.bwtOf (fmdText seqs) sa)) iv a) :=
+  forward_ext_correct seqs sa P iv a hne hseqs (sortedAllB_of_checkSA seqs sa hne hseqs hc) hP hPd ha hbi hpos
+
+/-- `init_interval_with` on every array accepted by C03's checker -/
+theorem init_interval_with_correct_of_checkSA (seqs : List (List Nat)) (sa : List Nat) (a : Nat)
+    (hne : seqs ≠ []) (hseqs : ∀ s ∈ seqs, ∀ c ∈ s, FMDModel.isDna c = true)
+    (hc : checkSA (fmdText seqs) sa = true) (ha : FMDModel.isDna a = true) :
+    FMDSym.BiOf (fmdText seqs) sa [a] (FMDModel.initIntervalWith (LF.lessRef (LF.bwtOf (fmdText seqs) sa)) a) :=
+  init_interval_with_correct seqs sa a hne (sortedAllB_of_checkSA seqs sa hne hseqs hc) ha
+
+/-- **`smems` on every array accepted by C03's checker**: for every list of sequences and every pattern over
+`ACGTNacgtn`, every `sa` with `checkSA (fmdText seqs) sa = true`, `i < |pattern|`, `l ≥ 1`, the mirror model returns
+exactly what the property demands -/
+theorem smems_bi_model_correct_of_checkSA (seqs : List (List Nat)) (sa pat : List Nat)
+    (hne : seqs ≠ []) (hseqs : ∀ s ∈ seqs, ∀ c ∈ s, FMDModel.isDna c = true)
+    (hc : checkSA (fmdText seqs) sa = true) (hpat : ∀ c ∈ pat, FMDModel.isDna c = true)
+    (i l : Nat) (hi : i < pat.length) (hl : 1 ≤ l) :
+    SmemsProp (fmdText seqs) sa pat i l
+      ((SmemModel.smems (SmemModel.biOps (LF.lessRef (LF.bwtOf (fmdText seqs) sa))
+        (LF.occRef (LF.bwtOf (fmdText seqs) sa))) pat i l).map SmemModel.hitObs) :=
+  smems_bi_model_correct seqs sa pat hne hseqs (sortedAllB_of_checkSA seqs sa hne hseqs hc) hpat i l hi hl
+
+/-- **`all_smems` on every array accepted by C03's checker** -/
+theorem all_smems_bi_model_correct_of_checkSA (seqs : List (List Nat)) (sa pat : List Nat)
+    (hne : seqs ≠ []) (hseqs : ∀ s ∈ seqs, ∀ c ∈ s, FMDModel.isDna c = true)
+    (hc : checkSA (fmdText seqs) sa = true) (hpat : ∀ c ∈ pat, FMDModel.isDna c = true)
+    (l : Nat) (hl : 1 ≤ l) :
+    AllSmemsProp (fmdText seqs) sa pat l
+      ((SmemModel.allSmems (SmemModel.biOps (LF.lessRef (LF.bwtOf (fmdText seqs) sa))
+        (LF.occRef (LF.bwtOf (fmdText seqs) sa))) pat l).map SmemModel.hitObs) :=
+  all_smems_bi_model_correct seqs sa pat hne hseqs (sortedAllB_of_checkSA seqs sa hne hseqs hc) hpat l hl
+
+/-! ### the two cases `chain_correct` leaves out: extension of `init_interval()` and of an empty bi-interval -/
+
+/-- **extension of `init_interval()`** (the bi-interval of the empty string, `[0, n)` on both strands): on every FMD
+index, `backward_ext(init_interval(), a)` and `forward_ext(init_interval(), a)` both equal `init_interval_with(a)` —
+field by field, `match_size` included — for every `a` of `ACGTNacgtn`, hence are the bi-interval of the one-symbol
+string `a` -/
+theorem init_interval_ext_correct (seqs : List (List Nat)) (sa : List Nat) (a : Nat)
+    (hne : seqs ≠ []) (hseqs : ∀ s ∈ seqs, ∀ c ∈ s, FMDModel.isDna c = true)
+    (hchk : LF.sortedAllB (fmdText seqs) sa = true) (ha : FMDModel.isDna a = true) :
+    FMDModel.backwardExt (LF.lessRef (LF.bwtOf (fmdText seqs) sa)) (LF.occRef (LF.bwtOf (fmdText seqs) sa))
+        (FMDModel.initInterval sa.length) a = FMDModel.initIntervalWith (LF.lessRef (LF.bwtOf (fmdText seqs) sa)) a ∧
+    FMDModel.forwardExt (LF.lessRef (LF.bwtOf (fmdText seqs) sa)) (LF.occRef (LF.bwtOf (fmdText seqs) sa))
+        (FMDModel.initInterval sa.length) a = FMDModel.initIntervalWith (LF.lessRef (LF.bwtOf (fmdText seqs) sa)) a ∧
+    FMDSym.BiOf (fmdText seqs) sa [a]
+      (FMDModel.backwardExt (LF.lessRef (LF.bwtOf (fmdText seqs) sa)) (LF.occRef (LF.bwtOf (fmdText seqs) sa))
+        (FMDModel.initInterval sa.length) a) := by
+  have hperm : sa.Perm (List.range (fmdText seqs).length) := by
+    simp only [LF.sortedAllB, Bool.and_eq_true] at hchk
+    exact List.isPerm_iff.mp hchk.1
+  have h1 := SmemModel.backwardExt_initInterval seqs sa hne hseqs hperm a ha
+  refine ⟨h1, SmemModel.forwardExt_initInterval seqs sa hne hseqs hperm a ha, ?_⟩
+  rw [h1]
+  exact init_interval_with_correct seqs sa a hne hchk ha
+
+/-- **extension of an empty bi-interval**: for any `less`/`occ`, any symbol `a`, extending an empty bi-interval whose
+lower bound on the extended strand's side is non-zero gives an empty bi-interval (`occ(lower−1,·) − occ(lower−1,·)`).
+In `smems` the only empty interval that is ever extended is `init_interval_with(pattern[i])` of a symbol that does
+not occur; its bounds are `less(a)`, `less(complement a) ≥ 1` on an FMD index (`SmemModel.less_pos`).  (With
+`lower = 0` the Rust expression `interval.lower + interval.size - 1` would underflow.) -/
+theorem ext_of_empty_is_empty (less : Nat → Nat) (occ : Nat → Nat → Nat) (iv : FMDModel.Bi) (a : Nat)
+    (h0 : iv.size = 0) :
+    (iv.lower ≠ 0 → (FMDModel.backwardExt less occ iv a).size = 0) ∧
+    (iv.lowerRev ≠ 0 → (FMDModel.forwardExt less occ iv a).size = 0) :=
+  ⟨fun h => SmemModel.backwardExt_dead less occ iv a h0 h, fun h => SmemModel.forwardExt_dead less occ iv a h0 h⟩
+
+-- the doc-test index: `backward_ext(init_interval(), T)` through the theorem; an empty interval (`N` does not occur)
+example : FMDModel.backwardExt (LF.lessRef (LF.bwtOf T0 sa0)) (LF.occRef (LF.bwtOf T0 sa0)) (FMDModel.initInterval sa0.length) 84
+    = FMDModel.initIntervalWith (LF.lessRef (LF.bwtOf T0 sa0)) 84 :=
+  (init_interval_ext_correct [[65, 84, 84, 67]] sa0 84 (by decide) (by decide) (by decide) (by decide)).1
+example : (FMDModel.initIntervalWith (LF.lessRef bw0) 78).size = 0 ∧ (FMDModel.initIntervalWith (LF.lessRef bw0) 78).lower ≠ 0 ∧
+    (FMDModel.backwardExt (LF.lessRef bw0) (LF.occRef bw0) (FMDModel.initIntervalWith (LF.lessRef bw0) 78) 65).size = 0 := by
+  decide
+
+section sweep_examples
+-- T = ATTC$GAAT$: the doc test `smems(ATT, 2, ·)` and pattern ATG (matches AT and G)
+example : SmemModel.smemsStr T0 [65, 84, 84] 2 1 = [(0, 3)] := by decide
+example : SmemModel.allSmemsStr T0 [65, 84, 71] 1 = [(0, 2), (2, 1)] := by decide
+example : (SmemModel.smems (SmemModel.biOps (LF.lessRef bw0) (LF.occRef bw0)) [65, 84, 84] 2 1).map SmemModel.hitObs
+    = [⟨0, 3, 4, 5, 2, 3⟩] := by decide
+example : (SmemModel.allSmems (SmemModel.biOps (LF.lessRef bw0) (LF.occRef bw0)) [65, 84, 71] 1).map SmemModel.hitObs
+    = [⟨0, 2, 3, 5, 3, 5⟩, ⟨2, 1, 6, 7, 5, 6⟩] := by decide
+-- `pattern[i]` does not occur (N): nothing is reported
+example : SmemModel.smemsStr T0 [65, 78, 84] 1 1 = [] := by decide
+-- non-vacuity: all hypotheses of the sweep theorems hold on the doc-test index, through C03's checker too
+example : checkSA T0 sa0 = true := by decide
+example : SmemsProp T0 sa0 [65, 84, 84] 2 1
+    ((SmemModel.smems (SmemModel.biOps (LF.lessRef (LF.bwtOf T0 sa0)) (LF.occRef (LF.bwtOf T0 sa0)))
+      [65, 84, 84] 2 1).map SmemModel.hitObs) :=
+  smems_bi_model_correct_of_checkSA [[65, 84, 84, 67]] sa0 [65, 84, 84] (by decide) (by decide) (by decide)
+    (by decide) 2 1 (by decide) (by decide)
+example : AllSmemsProp T0 sa0 [65, 84, 71] 1
+    ((SmemModel.allSmems (SmemModel.biOps (LF.lessRef (LF.bwtOf T0 sa0)) (LF.occRef (LF.bwtOf T0 sa0)))
+      [65, 84, 71] 1).map SmemModel.hitObs) :=
+  all_smems_bi_model_correct [[65, 84, 84, 67]] sa0 [65, 84, 71] (by decide) (by decide) (by decide) (by decide) 1
+    (by decide)
+example : LF.sortedAllB T0 sa0 = true :=
+  sortedAllB_of_checkSA [[65, 84, 84, 67]] sa0 (by decide) (by decide) (by decide)
+example : checkSmems T0 sa0 [65, 84, 71] 1 1
+    ((SmemModel.smems (SmemModel.biOps (LF.lessRef (LF.bwtOf T0 sa0)) (LF.occRef (LF.bwtOf T0 sa0)))
+      [65, 84, 71] 1 1).map SmemModel.hitObs) = true :=
+  smems_model_accepted [[65, 84, 84, 67]] sa0 [65, 84, 71] (by decide) (by decide) (by decide) (by decide) 1 1
+    (by decide) (by decide)
+example : (SmemModel.smems (SmemModel.biOps (LF.lessRef (LF.bwtOf T0 sa0)) (LF.occRef (LF.bwtOf T0 sa0)))
+      [65, 84, 71] 1 1).map (fun h => (h.pos, h.len)) = SmemModel.smemsStr T0 [65, 84, 71] 1 1 :=
+  smems_bi_model_eq_string [[65, 84, 84, 67]] sa0 [65, 84, 71] (by decide) (by decide) (by decide) (by decide) 1 1
+    (by decide)
+example (b len : Nat) : (b, len) ∈ SmemModel.allSmemsStr T0 [65, 84, 71] 1 ↔ (Smem T0 [65, 84, 71] b len ∧ 1 ≤ len) :=
+  all_smems_model_correct T0 [65, 84, 71] 1 (by decide) b len
+example (b len : Nat) : (b, len) ∈ SmemModel.smemsStr T0 [65, 84, 84] 2 1 ↔
+    (Smem T0 [65, 84, 84] b len ∧ b ≤ 2 ∧ 2 < b + len ∧ 1 ≤ len) :=
+  smems_model_correct T0 [65, 84, 84] 2 1 (by decide) (by decide) b len
+end sweep_examples
 
 end RbV.Thm.C06
